@@ -9,7 +9,7 @@
 
     [TotalOrder cmp] asks for a total preorder given by the sign of [cmp] (reflexive, sign
     antisymmetric, transitive); Leibniz antisymmetry is not needed. *)
-From Algo.C01 Require Import Model Spec Proofs.
+From Algo.C01 Require Import Model Spec SpecFacts ProofsQuery Proofs.
 From Coq Require Import Permutation.
 Open Scope Z_scope.
 
@@ -57,6 +57,24 @@ Theorem C01_spec_sorted :
   forall h : list (mut K V), sorted cmp (s_build cmp h).
 Proof. intros K V cmp TO h. apply (SpecFacts.s_build_from_sorted cmp TO h []). exact I. Qed.
 
+(** What Equal means: with Leibniz equality on values and an antisymmetric comparator, the
+    abstract answer [s_equal] is true exactly when the two maps hold the same pairs. *)
+Theorem C01_equal_meaning :
+  forall (K V : Type) (cmp : K -> K -> Z) (eqv : V -> V -> bool), TotalOrder cmp ->
+  (forall a b, eqv a b = true <-> a = b) -> (forall a b, cmp a b = 0 -> a = b) ->
+  forall h1 h2 : list (mut K V),
+    s_equal cmp eqv (s_build cmp h1) (s_build cmp h2) = true <-> s_build cmp h1 = s_build cmp h2.
+Proof.
+  intros K V cmp eqv TO He Ha h1 h2.
+  apply (ProofsQuery.s_equal_iff cmp TO eqv); auto; apply (SpecFacts.s_build_from_sorted cmp TO _ []); exact I.
+Qed.
+
+(** Early exit: in every traversal order a visitor that stops after [j] visits has seen exactly
+    the first [j] entries of the full traversal (for any tree). *)
+Theorem C01_early_exit :
+  forall (K V : Type) (o : order) (j : nat) (t : tree K V), trav_stop o j t = firstn j (trav_list o t).
+Proof. intros K V o j t. exact (ProofsQuery.trav_stop_prefix o j t). Qed.
+
 (** The comparators the harness uses are instances of the hypothesis (non-vacuity of
     [TotalOrder]): ascending, reverse, difference-valued, and a non-antisymmetric preorder. *)
 Theorem C01_comparators :
@@ -85,3 +103,5 @@ Print Assumptions C01_firstmatch.
 Print Assumptions C01_traversal.
 Print Assumptions C01_spec_sorted.
 Print Assumptions C01_comparators.
+Print Assumptions C01_equal_meaning.
+Print Assumptions C01_early_exit.
